@@ -51,7 +51,30 @@ P5 == LET vals == EVar("vals", TArr(T_any))
                     SWhile(EBool(TRUE), <<SAsg(vals, EBin("+", vals, EArr(<<Num(4), EStr(<<122>>)>>))),
                                            SIf(<<EBin(">", ECallB("len", <<vals>>), Num(6))>>, << <<SAsg(mm, EML(EMap(<<<<120>>>>, <<Num(9)>>), 1)), SBrk>> >>, <<>>)>>),
                     Pr(<<vals, mm>>)>>, <<show>>, <<>>) EXCEPT !.fl = TRUE]
-Progs == << Seed(NoIns), Seed2, P3, P4, P5 >>
+\* blocks nested ten deep (if / for / while in turn), a multi-line literal and a comment-bearing statement innermost
+RECURSIVE Deep(_, _)
+Deep(d, ss) ==
+  IF d = 0 THEN ss
+  ELSE LET inner == Deep(d - 1, ss)
+       IN CASE d % 3 = 0 -> <<SIf(<<EBin(">", Xv, Num(0))>>, <<inner>>, << <<Pr(<<Num(d)>>)>> >>)>>
+            [] d % 3 = 1 -> <<SFor("i" \o ToString(d), "num", <<Num(1)>>, <<Pr(<<EVar("i" \o ToString(d), T_num)>>)>> \o inner)>>
+            [] OTHER     -> <<SWhile(EBin("<", Xv, Num(d)), <<SAsg(Xv, EBin("+", Xv, Num(1)))>> \o inner)>>
+P6 == Program(<<SInfer("x", Num(1))>>
+              \o Deep(10, <<SInfer("dd", EML(EArr(<<Num(1), EArr(<<Num(2)>>), Num(3)>>), 1)),
+                            SInfer("dm", EML(EMap(<<<<97>>, <<98>>>>, <<Num(1), EStr(<<122>>)>>), 1)),
+                            Pr(<<EVar("dd", TArr(T_any)), EVar("dm", TMap(T_any)), Xv>>)>>)
+              \o <<Pr(<<Xv>>)>>, <<>>, <<>>)
+\* string literals in every escape spelling the lexer accepts (the documented \t \n \" \\ and the others): the
+\* formatter may respell a literal but its value, hence the token, is the same
+P7 == Program(<<Raw(<<"s1 := \"a\\tb\\n\\\"q\\\"\\\\\"">>),
+                Raw(<<"s2 := \"\\x41\\xe9\\xff\"">>),
+                Raw(<<"s3 := \"\\u00e9\\U0001F600\"">>),
+                Raw(<<"s4 := \"\\a\\b\\f\\r\\v\\101\"">>),
+                Raw(<<"s5 := \"caf\\xc3\\xa9 \\xfe\\xff \\xc3\"">>),
+                Raw(<<"print s1 s2 s3 s4 s5 (len s2) (len s5) (s2 == \"A\\xe9\\xff\") (s3 < s2) (s5 == \"caf\\u00e9 \\xfe\\xff \\xc3\")">>),
+                Raw(<<"for c := range (s2 + s5)">>), Raw(<<"    print c (c == \"\\xe9\") (c < \"\\xff\")">>), Raw(<<"end">>),
+                Raw(<<"m := {a:\"\\xe9\" b:\"\\xff\\t\"}">>), Raw(<<"print m (m.a == s2[1])">>)>>, <<>>, <<>>)
+Progs == << Seed(NoIns), Seed2, P3, P4, P5, P6, P7 >>
 
 TDigit(code, i) == (code \div (7 ^ (i % 9))) % 7
 TailDigit(code) == (code \div 7) % 5
